@@ -129,6 +129,34 @@ def oracle(ctx, o, first_only=False):
                     "PasswordTruncateError: the upper-cased text is longer than 14 bytes")
             else:
                 chk("lmhash:accepts-within-limit-after-uppercasing", st == "ok", inp, errname(r) if st == "err" else r, "a hash")
+    # ---- 1b. the truncation policy given to a context in every spelling — context-wide, per scheme, for one user category through the
+    #      `all` pseudo-scheme or through the scheme — is the policy of hash() for exactly the users it names
+    for name in ("des_crypt", "bcrypt"):
+        h = vc.handler(name)
+        n = h.truncate_size
+        cheap = {f"{name}__rounds": 4} if name == "bcrypt" else {}
+        long_pw, ok_pw = "x" * (n + 3), "x" * n
+        spellings = [({"truncate_error": True}, [None, "admin", "staff"]), ({"all__truncate_error": True}, [None, "admin", "staff"]), ({f"{name}__truncate_error": True}, [None, "admin", "staff"]),
+                     ({"admin__all__truncate_error": True}, ["admin"]), ({f"admin__{name}__truncate_error": True}, ["admin"]),
+                     ({"truncate_error": True, "admin__all__truncate_error": False}, [None, "staff"]), ({"admin__all__truncate_error": True, f"staff__{name}__truncate_error": True}, ["admin", "staff"])]
+        for kw, strict_cats in spellings:
+            for via in ("constructor", "ini-roundtrip"):
+                c = CryptContext([name], **cheap, **kw)
+                if via == "ini-roundtrip":
+                    c = CryptContext.from_string(c.to_string())
+                for cat in (None, "admin", "staff"):
+                    inp = {"op": "context-truncate-policy", "hasher": name, "kwds": kw, "via": via, "category": cat}
+                    st, r = vc.safe_call(lambda: c.hash(long_pw, category=cat))
+                    st2, r2 = vc.safe_call(lambda: c.hash(ok_pw, category=cat))
+                    if cat in strict_cats:
+                        good = st == "err" and isinstance(r, exc.PasswordTruncateError) and st2 == "ok"
+                        want = "PasswordTruncateError for the overlong password, a hash for one of exactly the limit"
+                    else:
+                        good = st == "ok" and st2 == "ok"
+                        want = "a hash (no policy for this category)"
+                    chk(name + ":context-truncate-policy", good, inp, (errname(r) if st == "err" else "hashed", errname(r2) if st2 == "err" else "hashed"), want)
+        if fails and first_only:
+            return fails
     # ---- 2. the library-wide maximum, every hasher and CryptContext
     from .formats_common import EXPENSIVE
 
@@ -150,6 +178,23 @@ def oracle(ctx, o, first_only=False):
                         c = CryptContext([name])
                         st, r = vc.safe_call(lambda: c.hash(form, **ck))
                         chk(name + ":oversize-context-refused", st == "err" and isinstance(r, exc.PasswordSizeError), inp, errname(r) if st == "err" else "accepted", "PasswordSizeError")
+                    if form is pw:
+                        # … also when most of it is characters a text normaliser deletes or folds (soft hyphens, zero-width spaces): the limit
+                        # applies to the password as given, in hash and verify alike
+                        for filler in ("\u00ad", "\u200b"):
+                            odd = filler * ln + "pw"
+                            try:
+                                hh.hash(filler + "pw", **ck)
+                            except Exception:  # noqa: BLE001
+                                continue            # the format cannot take this character at all (code page, ASCII-only)
+                            inp2 = {"op": "max-size-normalisable", "hasher": name, "length": ln + 2, "filler": "U+%04X" % ord(filler)}
+                            st, r = vc.safe_call(lambda: hh.hash(odd, **ck))
+                            chk(name + ":oversize-hash-refused", st == "err" and isinstance(r, exc.PasswordSizeError), inp2, errname(r) if st == "err" else "accepted", "PasswordSizeError")
+                            st, r = vc.safe_call(lambda: hh.verify(odd, sample, **ck))
+                            chk(name + ":oversize-verify-refused", st == "err" and isinstance(r, exc.PasswordSizeError), inp2, errname(r) if st == "err" else str(r), "PasswordSizeError")
+                            if name not in vc.DISABLED:
+                                st, r = vc.safe_call(lambda: CryptContext([name]).verify(odd, sample, **ck))
+                                chk(name + ":oversize-context-verify-refused", st == "err" and isinstance(r, exc.PasswordSizeError), inp2, errname(r) if st == "err" else str(r), "PasswordSizeError")
                 elif name not in EXPENSIVE and name not in ("sun_md5_crypt", "scrypt", "cisco_pix", "cisco_asa") and form is pw:
                     lim = getattr(getattr(h, "wrapped", h), "truncate_size", None)
                     st, hs = vc.safe_call(lambda: hh.hash(form, **ck))
